@@ -109,7 +109,7 @@ theorem C11_createDependencyLink_dead (r : Root) (deps : List Id) (d : Id) (h : 
 /-- disposing an already disposed node does nothing and cannot fail -/
 theorem C11_dispose_dead (fuel : Nat) (r : Root) (id : Id) (h : r.get? id = none) :
     disposeNode (fuel + 2) r id = .ok r := by
-  simp [disposeNode, disposeChildren, unsubscribe, h, removeNode]
+  simp [disposeNode, disposeChildren, disposeRest, unsubscribe, h, removeNode]
 
 /-- the propagation loop skips nodes that died since they were scheduled -/
 theorem C11_loop_skips_dead (fuel : Nat) (r : Root) (node : Id) (rest : List Id)
